@@ -531,3 +531,106 @@ func c16UnaccountedUse(funcs []*ssa.Function, g *ssa.Function) ssa.Instruction {
 	}
 	return nil
 }
+
+// ---------------------------------------------------------------------------
+// Closures created by a function, whatever their body was written as
+// ---------------------------------------------------------------------------
+
+// c16ClosureCreatedIn: v denotes a closure value that f itself creates – a function literal
+// of f, or the closure over the receiver's cells that a method value `x.m` of a new method has
+// become (the bound-method wrapper carrying m's body: it has no lexical parent, the place of
+// its MakeClosure is what ties it to f). A wrapper that still forwards to its method is not
+// one (its body reads the receiver, not cells of f).
+func c16ClosureCreatedIn(v ssa.Value, f *ssa.Function) *ssa.Function {
+	if v == nil || f == nil {
+		return nil
+	}
+	if _, ok := v.Type().Underlying().(*types.Signature); !ok {
+		return nil
+	}
+	mc, ok := resolve(v).(*ssa.MakeClosure)
+	if !ok || mc.Parent() != f {
+		return nil
+	}
+	g, _ := mc.Fn.(*ssa.Function)
+	if g == nil || g.Blocks == nil {
+		return nil
+	}
+	if g.Parent() == f || (g.Parent() == nil && inlinedBoundWrapper(g)) {
+		return g
+	}
+	return nil
+}
+
+// c16CapturedParamAt: v, read inside a closure that owner creates, is the k-th parameter of
+// owner (−1: it is not): a free variable bound by value to the parameter, or a load of a free
+// variable bound to a cell of owner whose only store, in owner and passed on every path to the
+// instruction `at` (where the closure runs), stores that parameter. The binding is the one at
+// the closure's creation site(s), so closures without a lexical parent are covered.
+func c16CapturedParamAt(v ssa.Value, owner *ssa.Function, at ssa.Instruction) int {
+	paramOf := func(x ssa.Value) int {
+		pa, ok := core.Strip(core.Forward(x)).(*ssa.Parameter)
+		if !ok {
+			return -1
+		}
+		for i, q := range owner.Params {
+			if q == pa {
+				return i
+			}
+		}
+		return -1
+	}
+	outward := func(fv *ssa.FreeVar) ssa.Value {
+		var b ssa.Value = fv
+		for i := 0; i < 8; i++ {
+			x, ok := b.(*ssa.FreeVar)
+			if !ok {
+				break
+			}
+			if b = freeVarBinding(x); b == nil {
+				return nil
+			}
+		}
+		return b
+	}
+	v = core.Strip(v)
+	if fv, ok := v.(*ssa.FreeVar); ok {
+		if b := outward(fv); b != nil {
+			return paramOf(b)
+		}
+		return -1
+	}
+	u, ok := v.(*ssa.UnOp)
+	if !ok || u.Op != token.MUL {
+		return -1
+	}
+	fv, ok := u.X.(*ssa.FreeVar)
+	if !ok {
+		return -1
+	}
+	cell, ok := outward(fv).(*ssa.Alloc)
+	if !ok || cell.Parent() != owner {
+		return -1
+	}
+	if refs := cell.Referrers(); refs != nil {
+		for _, r := range *refs {
+			switch x := r.(type) {
+			case *ssa.Store:
+				if x.Addr != ssa.Value(cell) {
+					return -1 // the cell's address is stored somewhere
+				}
+			case *ssa.UnOp, *ssa.MakeClosure, *ssa.DebugRef:
+			default:
+				return -1
+			}
+		}
+	}
+	sts := storesToCell(cell)
+	if len(sts) != 1 || sts[0].Parent() != owner {
+		return -1
+	}
+	if at != nil && core.Precedes(owner, core.Is(sts[0]), core.Is(at)) != nil {
+		return -1
+	}
+	return paramOf(sts[0].Val)
+}
